@@ -51,6 +51,20 @@ def final (c : Cfg) : Lvl → List Op → Lvl
   | l, [] => l
   | l, o :: os => final c (step c l o).1 os
 
+/-- does this step restart the quota's window?  (`Inc` of a request the quota has not seen, at an instant at
+    or after the end of the stored window: `onWindowRestart()` replaces `allowedByReqID`) -/
+def restarts (c : Cfg) (l : Lvl) : Op → Bool
+  | .inc r t => (l.memo.lookup r).isNone && decide (c.win ≤ elapsed l t)
+  | _ => false
+
+/-- no step of the script restarts the window, and none is request `r`'s own `Allowed` / `Dec` -/
+def quietFor (c : Cfg) (r : Nat) : Lvl → List Op → Bool
+  | _, [] => true
+  | l, o :: os => !restarts c l o && o != .allowed r && o != .dec r && quietFor c r (step c l o).1 os
+
+/-- is the `Inc` of `r` at `t` counted within the limit? -/
+def counted (c : Cfg) (l : Lvl) (r t : Nat) : Bool := (incLevel c.max c.win l r t 1).2 == .increased
+
 def Ans.fmt : Ans → String
   | .ok => "ok"
   | .verdict b => toString b
